@@ -279,7 +279,77 @@ def case_api(ctx, inp):
     ctx.branch("api")
 
 
-CASES = {"legacy": case_legacy, "spec": case_spec, "api": case_api}
+FALSY_AND_TRUTHY = [0, "", (), 0.0, False, 1, "a", ("x", 0), ("", 0), 2.5, True, "0"]
+
+
+def case_alias(ctx, inp):
+    """`Alias(key[, target])` for every pair of keys incl. the falsy ones (0, '', (), 0.0, False): stored target,
+    dependencies, evaluation, copy, pickle; and the three public ways an alias enters a graph"""
+    from dask._task_spec import Alias, DataNode, Task, TaskRef, convert_legacy_graph, execute_graph
+    from dask.core import get
+    key = FALSY_AND_TRUTHY[inp["key"]]
+    tgt = None if inp["target"] is None else FALSY_AND_TRUTHY[inp["target"]]
+    how = inp.get("how", "plain")
+    if tgt is None:
+        a = Alias(key)
+        want = key
+    elif how == "taskref":
+        a = Alias(key, TaskRef(tgt))
+        want = tgt
+    elif how == "alias":
+        a = Alias(key, Alias("other", tgt))
+        want = tgt
+    else:
+        a = Alias(key, tgt)
+        want = tgt
+
+    def same(x, y):
+        return type(x) is type(y) and x == y
+    if not same(a.target, want):
+        ctx.fail("Alias(key, target) does not store the given target", observed=repr(a.target), expected=repr(want))
+    if set(a.dependencies) != {want} or not all(same(d, want) for d in a.dependencies):
+        ctx.fail("Alias.dependencies is not {target}", observed=repr(sorted(map(repr, a.dependencies))), expected=repr(want))
+    try:
+        v = a({want: "VALUE"})
+        if v != "VALUE":
+            ctx.fail("Alias(values) does not return the target's value", observed=repr(v))
+    except Exception as e:
+        ctx.fail(f"Alias(values) raised {type(e).__name__}: {e}")
+    for b, what in ((pickle.loads(pickle.dumps(a)), "pickle round trip"), (a.copy(), "copy")):
+        if not same(b.target, want) or not same(b.key, a.key):
+            ctx.fail(f"{what} changes key/target of an Alias", observed=[repr(b.key), repr(b.target)], expected=[repr(a.key), repr(want)])
+    # modelled part (ints / strs / tuples only)
+    modelled = all(type(x) in (int, str, tuple) and not isinstance(x, bool) for x in (key, want))
+    if modelled:
+        m = ctx.lean(Sym("alias_init"), to_sexp(key), Sym("notarget") if tgt is None else to_sexp(tgt))
+        ctx.eq("Alias.__init__ (model)", m, node_sexp(a))
+        ctx.branch("alias-modelled")
+    if not want and want is not None and tgt is not None:
+        ctx.branch("falsy-target")
+    # graphs: {target: 10, key: <alias>} through the three entry points
+    if tgt is not None and not (key == tgt):
+        for gname, dsk in (("legacy value equal to a key", {tgt: 10, key: tgt}),
+                           ("Alias node", {tgt: DataNode(tgt, 10), key: Alias(key, tgt)}),
+                           ("Task with TaskRef", {tgt: DataNode(tgt, 10), key: Task(key, _ident, TaskRef(tgt))})):
+            try:
+                got = get(dsk, key)
+            except Exception as e:
+                ctx.fail(f"dask.core.get on a graph with an alias to {tgt!r} ({gname}) raised {type(e).__name__}: {e}")
+                continue
+            if got != 10:
+                ctx.fail(f"alias to {tgt!r} ({gname}) computes {got!r}", expected=10)
+            conv = convert_legacy_graph(dsk)
+            if key not in conv:
+                ctx.fail(f"convert_legacy_graph dropped the entry {key!r} -> {tgt!r} ({gname})")
+            elif set(conv[key].dependencies) != {tgt}:
+                ctx.fail(f"converted entry {key!r} -> {tgt!r} has dependencies {sorted(map(repr, conv[key].dependencies))} ({gname})")
+
+
+def _ident(x):
+    return x
+
+
+CASES = {"legacy": case_legacy, "spec": case_spec, "api": case_api, "alias": case_alias}
 
 
 def _gen_node(rng, prev, depth):
@@ -313,7 +383,7 @@ def _gen_node(rng, prev, depth):
 def _gen_spec_graph(rng, n):
     keys, items = [], []
     for i in range(n):
-        k = rng.choice([f"k{i}", 100 + i, {"t": ["x", i]}])
+        k = rng.choice(["" if i == 0 else f"k{i}", i, {"t": []} if i == 0 else {"t": ["x", i]}])   # incl. falsy keys
         r = rng.random()
         if r < 0.15 and keys:
             nd = {"alias": rng.choice(keys)}
@@ -345,5 +415,11 @@ def generate(ctx):
     for _ in range(ctx.n(500)):
         yield "spec", {"graph": _gen_spec_graph(rng, rng.randint(1, 6)),
                        "cache": [["ext", 7]] if rng.random() < 0.2 else []}
+    # Alias construction: every (key, target) pair incl. target=None and all falsy keys
+    nk = len(FALSY_AND_TRUTHY)
+    for k in range(nk):
+        yield "alias", {"key": k, "target": None}
+        for t in range(nk):
+            yield "alias", {"key": k, "target": t, "how": ["plain", "taskref", "alias"][(k + t) % 3] if (k + t) % 4 == 0 else "plain"}
     for _ in range(ctx.n(100)):
         yield "api", {"graph": gen_legacy_graph(rng, rng.randint(1, 7), rng.choice([(), ("dictref",), ("tupleref",)]))}
